@@ -256,3 +256,19 @@ def leftover_queue(inst: Instance) -> Optional[List[dict]]:
     if data is not None:
         return [encode_received(m) for m in list(data)]
     return None
+
+
+def find_queue_deadlock(obs: Any) -> Optional[str]:
+    """At quiescence: is a connection still open while an application's receive queue is full?
+
+    That is the signature of a server task (reader, closer or the application itself) blocked
+    forever putting into a bounded application queue that nobody will read again."""
+    cap = obs.env.config.max_app_queue_size
+    if not any(c.handler_done_at is None for c in obs.conns):
+        return None
+    for inst in obs.instances:
+        q = leftover_queue(inst)
+        if q is not None and cap > 0 and len(q) >= cap:
+            return (f"instance {inst.iid} ({inst.scope.get('path')}) has {len(q)} unread "
+                    f"messages (queue size {cap}), exit={inst.exit}")
+    return None
